@@ -415,6 +415,65 @@ fn case(rng: &mut Rng, pools: &mut Pools, rep: &mut Report, case_no: u64) {
     }
 }
 
+/// A dispatcher that went through one caught panic is used for more than 2^16 further dispatches:
+/// every one of them runs every system exactly once.
+fn case_soak(rng: &mut Rng, pools: &mut Pools, rep: &mut Report, case_no: u64) {
+    let mut c = cfg_for(Profile::Tiny, rng);
+    c.n = (3, 6);
+    c.p_dep = 30;
+    c.p_static = 0;
+    c.tl = (0, 1);
+    let plan = gen_with(rng, &c);
+    let pool_size = rng.range(2, 4);
+    let pool = pools.get(pool_size);
+    let all = victims_of(&plan);
+    if all.is_empty() {
+        return;
+    }
+    let m = if rng.chance(1, 2) { DMode::Dispatch } else { DMode::Par };
+    let cands: Vec<u32> = all.iter().filter(|x| !x.1).map(|x| x.0).collect();
+    if cands.is_empty() {
+        return;
+    }
+    let victim = *rng.pick(&cands);
+    let mut inst = match build(&plan, Some(&pool), pool_size, 64) {
+        Ok(i) => i,
+        Err(_) => {
+            rep.inconclusive += 1;
+            return;
+        }
+    };
+    rep.evaluations += 1;
+    let ctx = inst.ctx.clone();
+    for _ in 0..rng.range(0, 3) {
+        let _ = inst.run_quiet(m);
+    }
+    ctx.inject[victim as usize].store(INJ_PANIC_RUN, SeqCst);
+    let p = inst.run_quiet(m);
+    ctx.inject[victim as usize].store(INJ_NONE, SeqCst);
+    let _ = crate::sys::take_pool_panics();
+    let _ = ctx.take_violations();
+    if p.is_none() {
+        // the injected panic did not surface: the ordinary cases report that
+        rep.metric("other_property_findings", 1);
+        return;
+    }
+    let n = 65_536 + rng.range(2, 40);
+    rep.metric("soak_histories", 1);
+    match soak(&mut inst, m, n) {
+        Some((i, msg)) => rep.violation(
+            "not_reusable_after_panic:long_history",
+            &format!("after one caught panic (u{} in {}) the dispatcher was used again: {}", victim, m.name(), msg),
+            case_no,
+            J::obj().set("plan", plan.to_json()).set("pool", pool_size).set("calls_after_the_panic", i + 1),
+        ),
+        None => {
+            rep.metric("soak_dispatches", n as i64);
+            rep.nontrivial(mix(plan.hash(), 0x50a6 + n as u64));
+        }
+    }
+}
+
 pub fn run(args: &Args) -> i32 {
     let mut rep = Report::new(args);
     let mut pools = Pools::new();
@@ -431,6 +490,10 @@ pub fn run(args: &Args) -> i32 {
             break;
         }
         let mut rng = Rng::new(args.case_seed(c));
+        if c % 400 == 7 && !crate::props::sched::tiny() && cfg!(feature = "parallel") {
+            guard_case(&mut rep, c, |rep| case_soak(&mut rng, &mut pools, rep, c));
+            continue;
+        }
         guard_case(&mut rep, c, |rep| case(&mut rng, &mut pools, rep, c));
     }
     rep.finish();
